@@ -96,6 +96,24 @@ Ltac inv_F2 :=
   | H : Forall2 _ (_ :: _) _ |- _ => inversion H; subst; clear H
   end.
 
+(** an invariant of the stack entries transfers to the emitted items (no termination needed) *)
+Lemma run_inv {E I : Type} (expand : E -> option I * list E) (P : E -> Prop) (Q : I -> Prop) :
+  (forall e o cs, P e -> expand e = (o, cs) -> Forall P cs /\ (forall x, o = Some x -> Q x)) ->
+  forall n st out, Forall P st -> run E I expand n st = Some out -> Forall Q out.
+Proof.
+  intros H. induction n as [|n IH]; intros st out HP Hr; destruct st as [|e rest]; cbn [run] in Hr.
+  - inversion Hr. constructor.
+  - discriminate.
+  - inversion Hr. constructor.
+  - destruct (expand e) as [o cs] eqn:Hex.
+    destruct (run E I expand n (rev cs ++ rest)) as [out'|] eqn:Hr'; [|discriminate].
+    inversion Hr; subst. inversion HP as [|? ? He Hrest]; subst.
+    destruct (H _ _ _ He Hex) as [Hcs Ho].
+    assert (HQ : Forall Q out').
+    { eapply IH; [|exact Hr']. apply Forall_app. split; [apply Forall_rev; exact Hcs | exact Hrest]. }
+    destruct o as [x|]; cbn [opt_cons]; [constructor; [apply Ho; reflexivity | exact HQ] | exact HQ].
+Qed.
+
 (* ------------------------------------------------------------------------------------------ *)
 Section UN.
 Variables (pfx L R : Type).
@@ -284,8 +302,7 @@ Definition item_ok (A : list (pfx * L)) (B : list (pfx * R)) (la : lpmL) (ra : l
   match it with
   | IBoth p l r => In (p, l) A /\ exists pr, In (pr, r) B /\ bits pr = bits p
   | ILeft p l ann => In (p, l) A /\ (forall e, In e B -> bits (fst e) <> bits p) /\ ann_ok B ra p ann
-  | IRight p ann r => (exists pr, In (pr, r) B /\ bits pr = bits p) /\
-                      (forall e, In e A -> bits (fst e) <> bits p) /\ ann_ok A la p ann
+  | IRight p ann r => In (p, r) B /\ (forall e, In e A -> bits (fst e) <> bits p) /\ ann_ok A la p ann
   end.
 
 (** [out] is the union of the entry lists [A] and [B], annotations relative to the inherited
@@ -301,7 +318,7 @@ Lemma item_key A B la ra it : item_ok A B la ra it ->
 Proof.
   destruct it as [p l ann|p ann r|p l r]; cbn; intros H.
   - left. exists (p, l). split; [apply H | reflexivity].
-  - right. destruct H as ((pr & H1 & H2) & _). exists (pr, r). split; [exact H1 | exact H2].
+  - right. exists (p, r). split; [apply H | reflexivity].
   - left. exists (p, l). split; [apply H | reflexivity].
 Qed.
 
@@ -326,7 +343,7 @@ Proof.
   - intros (H1 & H2 & H3). split; [apply HA; exact H1|]. split.
     + intros e He E. apply (H2 e); [|exact E]. apply HB'; [exact He|]. rewrite E. apply prefix_of_refl.
     + eapply ann_ext; [exact HB | exact HB' | exact H3].
-  - intros ((pr & H1 & E1) & H2 & H3). split; [exists pr; split; [apply HB; exact H1 | exact E1]|]. split.
+  - intros (H1 & H2 & H3). split; [apply HB; exact H1|]. split.
     + intros e He E. apply (H2 e); [|exact E]. apply HA'; [exact He|]. rewrite E. apply prefix_of_refl.
     + eapply ann_ext; [exact HA | exact HA' | exact H3].
   - intros (H1 & pr & H2 & H3). split; [apply HA; exact H1|]. exists pr. split; [apply HB; exact H2 | exact H3].
@@ -380,7 +397,7 @@ Proof.
   - destruct Hi as (H1 & H2 & H3). split; [exact H1|]. split; [exact H2|].
     eapply ann_inh; [|exact H3]. destruct HR as [->|HR]; [left; reflexivity | right; apply (HR (p, l) p H1 eq_refl)].
   - destruct Hi as (H1 & H2 & H3). split; [exact H1|]. split; [exact H2|].
-    eapply ann_inh; [|exact H3]. destruct HL as [->|HL]; [left; reflexivity | right; destruct H1 as (pr & H1 & E1); apply (HL (pr, r) p H1 E1)].
+    eapply ann_inh; [|exact H3]. destruct HL as [->|HL]; [left; reflexivity | right; apply (HL (p, r) p H1 eq_refl)].
   - exact Hi.
 Qed.
 
@@ -424,9 +441,8 @@ Proof.
       * right. split; [eapply no_cover_below; [exact HB | reflexivity] | reflexivity].
     + specialize (Hi it Hit). destruct it as [p l ann|p ann r|p l r]; cbn [item_ok] in *.
       * destruct Hi as (H1 & H2 & H3). split; [right; exact H1|]. split; assumption.
-      * destruct Hi as (H1 & H2 & H3). destruct H1 as (pr' & H1 & E1).
-        destruct (HB _ H1) as [Hp Hn]. cbn [fst] in Hp, Hn. rewrite E1 in Hp, Hn.
-        split; [exists pr'; split; [exact H1 | exact E1]|]. split.
+      * destruct Hi as (H1 & H2 & H3). destruct (HB _ H1) as [Hp Hn]. cbn [fst] in Hp, Hn.
+        split; [exact H1|]. split.
         -- intros e [<-|He]; [cbn [fst]; congruence | apply H2; exact He].
         -- apply ann_own; assumption.
       * destruct Hi as (H1 & H2). split; [right; exact H1 | exact H2].
@@ -434,27 +450,26 @@ Proof.
   - apply compl_skip; exact Hcb.
 Qed.
 
-Lemma uspec_own_r p pr y A B la ra' X :
-  bits pr = bits p -> below (bits p) A -> below (bits p) B ->
-  uspec A B la (Some (pr, y)) X -> uspec A ((pr, y) :: B) la ra' (IRight p la y :: X).
+Lemma uspec_own_r pr y A B la ra' X :
+  below (bits pr) A -> below (bits pr) B ->
+  uspec A B la (Some (pr, y)) X -> uspec A ((pr, y) :: B) la ra' (IRight pr la y :: X).
 Proof.
-  intros Epr HA HB U. pose proof (own_first (bits p) _ _ _ _ _ (IRight p la y) eq_refl HA HB U) as Hf.
+  intros HA HB U. pose proof (own_first (bits pr) _ _ _ _ _ (IRight pr la y) eq_refl HA HB U) as Hf.
   destruct U as (Hs & Hi & Hca & Hcb). split; [|split; [|split]].
   - constructor; assumption.
   - intros it [<-|Hit].
-    + cbn [item_ok]. split; [exists pr; split; [left; reflexivity | exact Epr]|]. split.
+    + cbn [item_ok]. split; [left; reflexivity|]. split.
       * intros e He. apply (HA e He).
       * right. split; [eapply no_cover_below; [exact HA | reflexivity] | reflexivity].
-    + specialize (Hi it Hit). destruct it as [p0 l ann|p0 ann r|p0 l r]; cbn [item_ok] in *.
+    + specialize (Hi it Hit). destruct it as [p l ann|p ann r|p l r]; cbn [item_ok] in *.
       * destruct Hi as (H1 & H2 & H3). destruct (HA _ H1) as [Hp Hn]. cbn [fst] in Hp, Hn.
         split; [exact H1|]. split.
         -- intros e [<-|He]; [cbn [fst]; congruence | apply H2; exact He].
-        -- apply ann_own; [rewrite Epr; exact HB | rewrite Epr; exact Hp | exact H3].
-      * destruct Hi as ((pr' & H1 & E1) & H2 & H3).
-        split; [exists pr'; split; [right; exact H1 | exact E1]|]. split; assumption.
+        -- apply ann_own; assumption.
+      * destruct Hi as (H1 & H2 & H3). split; [right; exact H1|]. split; assumption.
       * destruct Hi as (H1 & pr' & H2 & H3). split; [exact H1|]. exists pr'. split; [right; exact H2 | exact H3].
   - apply compl_skip; exact Hca.
-  - apply compl_cons; [cbn [ikey fst]; symmetry; exact Epr | exact Hcb].
+  - apply compl_cons; [reflexivity | exact Hcb].
 Qed.
 
 Lemma uspec_own_both pl pr x y A B la' ra' X :
@@ -472,9 +487,8 @@ Proof.
         split; [right; exact H1|]. split.
         -- intros e [<-|He]; [cbn [fst]; congruence | apply H2; exact He].
         -- apply ann_own; [rewrite Epr; exact HB | rewrite Epr; exact Hp | exact H3].
-      * destruct Hi as ((pr' & H1 & E1) & H2 & H3).
-        destruct (HB _ H1) as [Hp Hn]. cbn [fst] in Hp, Hn. rewrite E1 in Hp, Hn.
-        split; [exists pr'; split; [right; exact H1 | exact E1]|]. split.
+      * destruct Hi as (H1 & H2 & H3). destruct (HB _ H1) as [Hp Hn]. cbn [fst] in Hp, Hn.
+        split; [right; exact H1|]. split.
         -- intros e [<-|He]; [cbn [fst]; congruence | apply H2; exact He].
         -- apply ann_own; assumption.
       * destruct Hi as (H1 & pr' & H2 & H3). split; [right; exact H1|]. exists pr'. split; [right; exact H2 | exact H3].
@@ -890,13 +904,13 @@ Proof.
     unfold rk in E. cbn [tpfx] in E. cbn [kids tleft tright].
     destruct (both_spec _ _ vl _ _ _ _ vr _ _ Gl Gr E) as [K1 K2]. split; [exact K1|].
     intros ls HF. specialize (K2 la ra ls HF).
-    pose proof (wf_below_l _ _ _ _ _ Gl) as Bl. pose proof (wf_below_l _ _ _ _ _ Gr) as Br. rewrite <- E in Br.
+    pose proof (wf_below_l _ _ _ _ _ Gl) as Bl. pose proof (wf_below_l _ _ _ _ _ Gr) as Br.
     cbn [SetOps.u_expand fst tpfx tval Rel entries].
-    destruct vl as [x|]; destruct vr as [y|]; cbn [SetOps.u_get_next opt_cons app].
-    + apply cons_some in Cl. apply cons_some in Cr. subst la ra.
+    destruct vl as [x|]; destruct vr as [y|]; cbn [is_some is_none negb SetOps.u_get_next opt_cons app].
+    + apply cons_some in Cl. apply cons_some in Cr. subst la ra. rewrite <- E in Br.
       apply uspec_own_both; [symmetry; exact E | exact Bl | exact Br | exact K2].
-    + apply cons_some in Cl. subst la. apply uspec_own_l; assumption.
-    + apply cons_some in Cr. subst ra. apply uspec_own_r; [symmetry; exact E | exact Bl | exact Br | exact K2].
+    + apply cons_some in Cl. subst la. rewrite <- E in Br. apply uspec_own_l; assumption.
+    + apply cons_some in Cr. subst ra. rewrite E in Bl. apply uspec_own_r; assumption.
     + exact K2.
   - destruct Hok as (Gl & Gr & Hp & Hn).
     destruct l as [|il pl vl ll lr]; [destruct (good_leaf Gl)|].
@@ -920,7 +934,7 @@ Proof.
     { apply (below_proper L _ (rk l)); [exact Hp | congruence | apply good_under; exact Gl]. }
     cbn [SetOps.u_expand fst tpfx tval Rel entries].
     destruct vr as [y|]; cbn [SetOps.u_get_next opt_cons app].
-    + apply cons_some in Hc. subst ra. apply uspec_own_r; [reflexivity | assumption..].
+    + apply cons_some in Hc. subst ra. apply uspec_own_r; assumption.
     + exact K2.
   - destruct l as [|il pl vl ll lr]; [destruct (good_leaf Hok)|]. cbn [kids].
     destruct (only_l_spec _ _ vl _ _ Hok) as [K1 K2]. split; [exact K1|].
@@ -936,8 +950,375 @@ Proof.
     pose proof (wf_below_l _ _ _ _ _ Hok) as Br.
     cbn [SetOps.u_expand fst tpfx tval Rel entries].
     destruct vr as [y|]; cbn [SetOps.u_get_next opt_cons app].
-    + apply cons_some in Hc. subst ra. apply uspec_own_r; [reflexivity | intros e [] | exact Br | exact K2].
+    + apply cons_some in Hc. subst ra. apply uspec_own_r; [intros e [] | exact Br | exact K2].
     + exact K2.
 Qed.
 
+(* ------------------------------------------------------------------------------------------ *)
+(** * Termination measure *)
+
+Lemma ls_cons x l : list_sum (x :: l) = x + list_sum l.
+Proof. reflexivity. Qed.
+Lemma ls_nil : list_sum [] = 0.
+Proof. reflexivity. Qed.
+Ltac ls_norm := rewrite ?map_app, ?list_sum_app; cbn [map app isz]; rewrite ?ls_cons, ?ls_nil.
+
+Lemma isz_ni (a : treeL) (b : treeR) : list_sum (map isz (ni a b)) <= tsize a + tsize b.
+Proof.
+  unfold SetOps.u_next_indices.
+  destruct (is_node a); destruct (is_node b);
+    repeat match goal with |- context [if ?c then _ else _] => destruct c end;
+    repeat match goal with |- context [match ?c with Eq => _ | Lt => _ | Gt => _ end] => destruct c end;
+    ls_norm; lia.
+Qed.
+
+Lemma isz_only_l (l : treeL) : list_sum (map isz (only_l l)) <= tsize (tleft l) + tsize (tright l).
+Proof.
+  unfold SetOps.u_only_l. destruct (is_node (tright l)); destruct (is_node (tleft l));
+    ls_norm; lia.
+Qed.
+Lemma isz_only_r (r : treeR) : list_sum (map isz (only_r r)) <= tsize (tleft r) + tsize (tright r).
+Proof.
+  unfold SetOps.u_only_r. destruct (is_node (tright r)); destruct (is_node (tleft r));
+    ls_norm; lia.
+Qed.
+
+Lemma isz_first_l (l : treeL) (r : treeR) :
+  list_sum (map isz (first_l l r)) <= tsize (tleft l) + tsize (tright l) + tsize r.
+Proof.
+  unfold SetOps.u_next_first_l.
+  pose proof (isz_ni (tleft l) r). pose proof (isz_ni (tright l) r).
+  destruct (is_node (tleft l)); destruct (is_node (tright l));
+    repeat match goal with |- context [if ?c then _ else _] => destruct c end;
+    ls_norm; lia.
+Qed.
+Lemma isz_first_r (l : treeL) (r : treeR) :
+  list_sum (map isz (first_r l r)) <= tsize l + tsize (tleft r) + tsize (tright r).
+Proof.
+  unfold SetOps.u_next_first_r.
+  pose proof (isz_ni l (tleft r)). pose proof (isz_ni l (tright r)).
+  destruct (is_node (tleft r)); destruct (is_node (tright r));
+    repeat match goal with |- context [if ?c then _ else _] => destruct c end;
+    ls_norm; lia.
+Qed.
+
+Lemma tsize_node {T} (t : tree pfx T) : is_node t = true -> tsize t = S (tsize (tleft t) + tsize (tright t)).
+Proof. destruct t; [discriminate | reflexivity]. Qed.
+
+Lemma kids_dec ix : okI ix -> list_sum (map isz (kids ix)) < isz ix.
+Proof.
+  intros Hok. destruct ix as [l r|l r|l r|l|r]; cbn [okI] in Hok; cbn [kids isz].
+  - destruct Hok as ([Nl _] & [Nr _] & _). rewrite (tsize_node l Nl), (tsize_node r Nr).
+    rewrite map_app, list_sum_app.
+    pose proof (isz_ni (tright l) (tright r)). pose proof (isz_ni (tleft l) (tleft r)). lia.
+  - destruct Hok as ([Nl _] & _). rewrite (tsize_node l Nl). pose proof (isz_first_l l r). lia.
+  - destruct Hok as (_ & [Nr _] & _). rewrite (tsize_node r Nr). pose proof (isz_first_r l r). lia.
+  - destruct Hok as [Nl _]. rewrite (tsize_node l Nl). pose proof (isz_only_l l). lia.
+  - destruct Hok as [Nr _]. rewrite (tsize_node r Nr). pose proof (isz_only_r r). lia.
+Qed.
+
+(* ------------------------------------------------------------------------------------------ *)
+(** * The machine *)
+
+Lemma u_expand_dec e o cs : okE e -> u_expand e = (o, cs) -> msize uentry esz cs < esz e.
+Proof.
+  destruct e as [[ix la] ra]. intros [Hok _] Hex.
+  assert (cs = snd (u_expand (ix, la, ra))) as -> by (rewrite Hex; reflexivity).
+  rewrite u_expand_snd, extend_size. apply kids_dec. exact Hok.
+Qed.
+
+Lemma u_expand_local e o cs : okE e -> u_expand e = (o, cs) ->
+  Forall okE cs /\ (forall ls, Forall2 Rel (rev cs) ls -> Rel e (opt_cons uitem o (concat ls))).
+Proof.
+  destruct e as [[ix la] ra]. intros [Hok Hc] Hex.
+  assert (cs = snd (u_expand (ix, la, ra))) as -> by (rewrite Hex; reflexivity).
+  assert (o = fst (u_expand (ix, la, ra))) as -> by (rewrite Hex; reflexivity).
+  rewrite u_expand_snd. destruct (kids_spec ix la ra Hok Hc) as [K1 K2].
+  split; [apply extend_ok; exact K1 | exact K2].
+Qed.
+
+(** the machine started on [next_indices a b] with inherited matches [la], [ra] *)
+Theorem union_run ba bb (ta : treeL) (tb : treeR) la ra n :
+  wfL ba ta -> wfR bb tb -> tsize ta + tsize tb <= n ->
+  exists out, run uentry uitem u_expand n (rev (extend la ra (ni ta tb))) = Some out /\
+              uspec (entries ta) (entries tb) la ra out.
+Proof.
+  intros Ha Hb Hn. pose proof (ni_classify _ _ ta tb Ha Hb) as C.
+  destruct (run_rel uentry uitem u_expand esz okE Rel u_expand_dec u_expand_local n
+              (rev (extend la ra (ni ta tb)))) as [ls [HF Hrun]].
+  - apply Forall_rev. apply extend_ok. eapply class_ok; exact C.
+  - rewrite msize_rev, extend_size. pose proof (isz_ni ta tb). lia.
+  - exists (concat ls). split; [exact Hrun|]. eapply class_spec; eassumption.
+Qed.
+
+(* ------------------------------------------------------------------------------------------ *)
+(** * [union]: the specification and the main theorems *)
+
+(** annotation = the longest-prefix match of prefix [p] in the entry list [B]
+    ([None] iff nothing covers) *)
+Definition lpm_ann {T} (B : list (pfx * T)) (p : pfx) (ann : option (pfx * T)) : Prop :=
+  match ann with
+  | Some e => Lookup.is_lpm pfx T bits B p e
+  | None => Lookup.no_cover pfx T bits B p
+  end.
+
+(** the requested specification *)
+Definition union_spec (A : list (pfx * L)) (B : list (pfx * R)) (out : list uitem) : Prop :=
+  StronglySorted (fun i j => lex_lt (ikey i) (ikey j)) out /\
+  (forall it, In it out ->
+     match it with
+     | IBoth p l r => In (p, l) A /\ exists pr, In (pr, r) B /\ bits pr = bits p
+     | ILeft p l ann => In (p, l) A /\ (forall e, In e B -> bits (fst e) <> bits p) /\ lpm_ann B p ann
+     | IRight p ann r => In (p, r) B /\ (forall e, In e A -> bits (fst e) <> bits p) /\ lpm_ann A p ann
+     end) /\
+  (forall e, In e A -> exists it, In it out /\ ikey it = bits (fst e)) /\
+  (forall e, In e B -> exists it, In it out /\ ikey it = bits (fst e)).
+
+Lemma ann_ok_none {T} (B : list (pfx * T)) p ann : ann_ok B None p ann -> lpm_ann B p ann.
+Proof. intros [[e [-> H]]|[H ->]]; exact H. Qed.
+
+Lemma uspec_final A B out : uspec A B None None out -> union_spec A B out.
+Proof.
+  intros (Hs & Hi & Hca & Hcb). split; [exact Hs|]. split; [|split; assumption].
+  intros it Hit. specialize (Hi it Hit). destruct it as [p l ann|p ann r|p l r]; cbn [item_ok] in Hi.
+  - destruct Hi as (H1 & H2 & H3). split; [exact H1|]. split; [exact H2 | apply ann_ok_none; exact H3].
+  - destruct Hi as (H1 & H2 & H3). split; [exact H1|]. split; [exact H2 | apply ann_ok_none; exact H3].
+  - exact Hi.
+Qed.
+
+(** MAIN THEOREM.
+
+    History: in the first version of the model (and of the Rust code) a [UBoth] stack entry
+    always reported the LEFT node's prefix ([&node_l.prefix]), also when only the right node
+    carried a value; the clause [In (p, r) B] of [Right] items was then false.  Witness (width 8,
+    flavour [Generic]): left map {00/2, 01/2} (value-less branching node 0/1 with representative
+    0), right map {0/1 stored with representative 64}: the old model yielded
+    [IRight {repr := 0; plen := 1} None 9] although the right map stores
+    [({repr := 64; plen := 1}, 9)].  The repaired code reports the prefix of the node that holds
+    the entry (the left one if both do), and the clause holds. *)
+Theorem union_correct ba bb (ta : treeL) (tb : treeR) :
+  wfL ba ta -> wfR bb tb ->
+  exists out, union ta tb = Some out /\ union_spec (entries ta) (entries tb) out.
+Proof.
+  intros Ha Hb. unfold SetOps.union, SetOps.so_fuel.
+  destruct (union_run ba bb ta tb None None (S (tsize ta + tsize tb)) Ha Hb) as [out [Hrun U]]; [lia|].
+  exists out. split; [exact Hrun | apply uspec_final; exact U].
+Qed.
+
+(* ------------------------------------------------------------------------------------------ *)
+(** * [union_mut]: lock-step simulation with [union], and the reported slots *)
+
+Definition projU (it : uitem) : pfx * option L * option R :=
+  match it with
+  | ILeft p l _ => (p, Some l, None)
+  | IRight p _ r => (p, None, Some r)
+  | IBoth p l r => (p, Some l, Some r)
+  end.
+Definition projM : umitem -> pfx * option L * option R :=
+  fun '(p, l, r) => (p, option_map snd l, option_map snd r).
+
+Lemma expand_sim ix la ra :
+  option_map projU (fst (u_expand (ix, la, ra))) = option_map projM (fst (um_expand ix)).
+Proof.
+  destruct ix as [l r|l r|l r|l|r]; cbn [SetOps.u_expand SetOps.um_expand fst].
+  - destruct l as [|il pl [x|] ll lr]; destruct r as [|ir pr [y|] rl rr]; reflexivity.
+  - destruct l as [|il pl [x|] ll lr]; reflexivity.
+  - destruct r as [|ir pr [y|] rl rr]; reflexivity.
+  - destruct l as [|il pl [x|] ll lr]; reflexivity.
+  - destruct r as [|ir pr [y|] rl rr]; reflexivity.
+Qed.
+
+Definition eix (e : uentry) : uidx := fst (fst e).
+
+Lemma extend_eix la ra xs : map eix (extend la ra xs) = xs.
+Proof.
+  unfold SetOps.u_extend_lpm. rewrite map_map. rewrite <- (map_id xs) at 2. apply map_ext.
+  intros x. destruct x; reflexivity.
+Qed.
+
+Lemma run_sim n : forall st,
+  match run uentry uitem u_expand n st, run uidx umitem um_expand n (map eix st) with
+  | Some o, Some om => map projU o = map projM om
+  | None, None => True
+  | _, _ => False
+  end.
+Proof.
+  induction n as [|n IH]; intros st; destruct st as [|e rest]; cbn [run map]; try reflexivity; try exact I.
+  destruct e as [[ix la] ra]. cbn [eix fst].
+  pose proof (u_expand_snd ix la ra) as Hs. pose proof (um_expand_snd ix) as Hms.
+  pose proof (expand_sim ix la ra) as Hf.
+  destruct (u_expand (ix, la, ra)) as [o cs]. destruct (um_expand ix) as [om csm].
+  cbn [fst snd] in Hs, Hms, Hf. subst cs csm.
+  specialize (IH (rev (extend la ra (kids ix)) ++ rest)).
+  rewrite map_app, map_rev, extend_eix in IH.
+  destruct (run uentry uitem u_expand n (rev (extend la ra (kids ix)) ++ rest)) as [out|];
+    destruct (run uidx umitem um_expand n (rev (kids ix) ++ map eix rest)) as [outm|];
+    try contradiction; [|exact I].
+  destruct o as [x|]; destruct om as [xm|]; cbn [option_map] in Hf; try discriminate; cbn [opt_cons map].
+  - inversion Hf. f_equal. exact IH.
+  - exact IH.
+Qed.
+
+Theorem union_mut_mirrors ba bb (ta : treeL) (tb : treeR) :
+  wfL ba ta -> wfR bb tb ->
+  exists out outm, union ta tb = Some out /\ union_mut ta tb = Some outm /\
+    map (fun it => match it with
+                   | ILeft p l _ => (p, Some l, None)
+                   | IRight p _ r => (p, None, Some r)
+                   | IBoth p l r => (p, Some l, Some r)
+                   end) out
+    = map (fun '(p, l, r) => (p, option_map snd l, option_map snd r)) outm.
+Proof.
+  intros Ha Hb. destruct (union_correct ba bb ta tb Ha Hb) as [out [Hrun _]].
+  pose proof (run_sim (so_fuel ta tb) (rev (extend None None (ni ta tb)))) as Hsim.
+  rewrite map_rev, extend_eix in Hsim. unfold SetOps.union in Hrun. rewrite Hrun in Hsim.
+  unfold SetOps.union_mut.
+  destruct (run uidx umitem um_expand (so_fuel ta tb) (rev (ni ta tb))) as [outm|]; [|contradiction].
+  exists out, outm. split; [exact Hrun|]. split; [reflexivity | exact Hsim].
+Qed.
+
+(** ** the slots reported by [union_mut] *)
+
+Definition sub {T} (big t : tree pfx T) : Prop :=
+  forall e, In e (entries_id t) -> In e (entries_id big).
+
+Lemma sub_children {T} (big t : tree pfx T) : sub big t -> sub big (tleft t) /\ sub big (tright t).
+Proof.
+  destruct t as [|i p v l r]; cbn [tleft tright]; [intros H; split; exact H|].
+  intros H. split; intros e He; apply H; cbn [entries_id]; rewrite !in_app_iff; auto.
+Qed.
+
+Definition PI (PL : treeL -> Prop) (PR : treeR -> Prop) (ix : uidx) : Prop :=
+  match ix with
+  | UBoth l r | UFirstL l r | UFirstR l r => PL l /\ PR r
+  | UOnlyL l => PL l
+  | UOnlyR r => PR r
+  end.
+
+Section Lift.
+Variables (PL : treeL -> Prop) (PR : treeR -> Prop).
+Hypothesis PLc : forall t, PL t -> PL (tleft t) /\ PL (tright t).
+Hypothesis PRc : forall t, PR t -> PR (tleft t) /\ PR (tright t).
+
+Lemma ni_PI a b : PL a -> PR b -> Forall (PI PL PR) (ni a b).
+Proof.
+  intros Ha Hb. unfold SetOps.u_next_indices.
+  destruct (is_node a); destruct (is_node b);
+    repeat match goal with |- context [if ?c then _ else _] => destruct c end;
+    repeat match goal with |- context [match ?c with Eq => _ | Lt => _ | Gt => _ end] => destruct c end;
+    repeat (apply Forall_cons || apply Forall_nil); cbn [PI]; auto.
+Qed.
+
+Lemma kids_PI ix : PI PL PR ix -> Forall (PI PL PR) (kids ix).
+Proof.
+  destruct ix as [l r|l r|l r|l|r]; cbn [PI kids].
+  - intros [Hl Hr]. destruct (PLc l Hl). destruct (PRc r Hr). apply Forall_app. split; apply ni_PI; assumption.
+  - intros [Hl Hr]. destruct (PLc l Hl) as [H1 H2]. unfold SetOps.u_next_first_l.
+    destruct (is_node (tleft l)); destruct (is_node (tright l));
+      repeat match goal with |- context [if ?c then _ else _] => destruct c end;
+      repeat (apply Forall_app; split); repeat (apply Forall_cons || apply Forall_nil);
+      try (apply ni_PI; assumption); cbn [PI]; auto.
+  - intros [Hl Hr]. destruct (PRc r Hr) as [H1 H2]. unfold SetOps.u_next_first_r.
+    destruct (is_node (tleft r)); destruct (is_node (tright r));
+      repeat match goal with |- context [if ?c then _ else _] => destruct c end;
+      repeat (apply Forall_app; split); repeat (apply Forall_cons || apply Forall_nil);
+      try (apply ni_PI; assumption); cbn [PI]; auto.
+  - intros Hl. destruct (PLc l Hl) as [H1 H2]. unfold SetOps.u_only_l.
+    destruct (is_node (tleft l)); destruct (is_node (tright l)); cbn [app];
+      repeat (apply Forall_cons || apply Forall_nil); cbn [PI]; auto.
+  - intros Hr. destruct (PRc r Hr) as [H1 H2]. unfold SetOps.u_only_r.
+    destruct (is_node (tleft r)); destruct (is_node (tright r)); cbn [app];
+      repeat (apply Forall_cons || apply Forall_nil); cbn [PI]; auto.
+Qed.
+End Lift.
+
+Lemma kids_ok ix : okI ix -> Forall okI (kids ix).
+Proof.
+  intros Hok.
+  assert (Hc : exists la ra, consI ix la ra).
+  { assert (CL : forall l : treeL, cons l (pv l)) by (intros l; unfold cons; destruct (pv l); reflexivity).
+    assert (CR : forall r : treeR, cons r (pv r)) by (intros r; unfold cons; destruct (pv r); reflexivity).
+    destruct ix as [l r|l r|l r|l|r]; cbn [consI].
+    - exists (pv l), (pv r). split; [apply CL | apply CR].
+    - exists (pv l), None. apply CL.
+    - exists None, (pv r). apply CR.
+    - exists (pv l), None. apply CL.
+    - exists None, (pv r). apply CR. }
+  destruct Hc as (la & ra & Hc). apply (kids_spec ix la ra Hok Hc).
+Qed.
+
+Lemma idval_in {T} (t : tree pfx T) i x :
+  idval pfx t = Some (i, x) -> In (i, tpfx pfx T pzero t, x) (entries_id t).
+Proof.
+  destruct t as [|j p [y|] l r]; cbn [idval]; intros H; inversion H; subst. cbn [entries_id tpfx]. left. reflexivity.
+Qed.
+
+Definition slot_ok (ta : treeL) (tb : treeR) (it : umitem) : Prop :=
+  let '(p, l, r) := it in
+  (forall i x, l = Some (i, x) -> In (i, p, x) (entries_id ta)) /\
+  (forall i y, r = Some (i, y) ->
+     (l = None -> In (i, p, y) (entries_id tb)) /\
+     exists pr, In (i, pr, y) (entries_id tb) /\ bits pr = bits p).
+
+(** every slot [union_mut] yields is the slot of that entry (an item with both sides reports the
+    LEFT node's prefix, hence the right-hand clause is then stated up to the denoted key) *)
+Theorem union_mut_slots ba bb (ta : treeL) (tb : treeR) outm :
+  wfL ba ta -> wfR bb tb -> union_mut ta tb = Some outm ->
+  forall p l r, In (p, l, r) outm ->
+    (forall i x, l = Some (i, x) -> In (i, p, x) (entries_id ta)) /\
+    (forall i y, r = Some (i, y) ->
+       (l = None -> In (i, p, y) (entries_id tb)) /\
+       exists pr, In (i, pr, y) (entries_id tb) /\ bits pr = bits p).
+Proof.
+  intros Ha Hb Hrun. unfold SetOps.union_mut in Hrun.
+  assert (HQ : Forall (slot_ok ta tb) outm).
+  { eapply (run_inv um_expand (fun ix => okI ix /\ PI (sub ta) (sub tb) ix)); [| |exact Hrun].
+    - intros ix o cs [Hok Hsub] Hex.
+      assert (cs = snd (um_expand ix)) as -> by (rewrite Hex; reflexivity).
+      assert (o = fst (um_expand ix)) as -> by (rewrite Hex; reflexivity).
+      rewrite um_expand_snd. split.
+      + apply Forall_and; [apply kids_ok; exact Hok|].
+        apply kids_PI; [apply sub_children | apply sub_children | exact Hsub].
+      + clear Hex. intros x Hx.
+        destruct ix as [l r|l r|l r|l|r]; cbn [SetOps.um_expand fst] in Hx; cbn [okI PI] in Hok, Hsub.
+        * destruct Hok as (Gl & Gr & Ek). destruct Hsub as [Sl Sr].
+          destruct l as [|il pl vl ll lr]; [destruct (good_leaf Gl)|].
+          destruct r as [|ir pr vr rl rr]; [destruct (good_leaf Gr)|].
+          unfold rk in Ek. cbn [tpfx] in Ek.
+          assert (Il : forall x0, vl = Some x0 -> In (il, pl, x0) (entries_id ta)).
+          { intros x0 ->. apply Sl. left. reflexivity. }
+          assert (Ir : forall y0, vr = Some y0 -> In (ir, pr, y0) (entries_id tb)).
+          { intros y0 ->. apply Sr. left. reflexivity. }
+          cbn [tval tpfx idval] in Hx.
+          destruct vl as [x0|]; destruct vr as [y0|]; cbn [is_some is_none negb orb] in Hx;
+            inversion Hx; subst x; clear Hx; cbn [slot_ok];
+            (split; [intros i x E | intros i y E]); inversion E; subst.
+          -- apply Il. reflexivity.
+          -- split; [discriminate|]. exists pr. split; [apply Ir; reflexivity | symmetry; exact Ek].
+          -- apply Il. reflexivity.
+          -- split; [intros _; apply Ir; reflexivity|]. exists pr. split; [apply Ir; reflexivity | reflexivity].
+        * match type of Hx with (if ?c then _ else _) = _ => destruct c; [|discriminate] end.
+          inversion Hx; subst x; clear Hx; cbn [slot_ok]. split; [intros i x E | intros i y E; discriminate].
+          apply (proj1 Hsub). apply idval_in. exact E.
+        * match type of Hx with (if ?c then _ else _) = _ => destruct c; [|discriminate] end.
+          inversion Hx; subst x; clear Hx; cbn [slot_ok]. split; [intros i x E; discriminate | intros i y E].
+          assert (Hin : In (i, tpfx pfx R pzero r, y) (entries_id tb)) by (apply (proj2 Hsub); apply idval_in; exact E).
+          split; [intros _; exact Hin|]. exists (tpfx pfx R pzero r). split; [exact Hin | reflexivity].
+        * match type of Hx with (if ?c then _ else _) = _ => destruct c; [|discriminate] end.
+          inversion Hx; subst x; clear Hx; cbn [slot_ok]. split; [intros i x E | intros i y E; discriminate].
+          apply Hsub. apply idval_in. exact E.
+        * match type of Hx with (if ?c then _ else _) = _ => destruct c; [|discriminate] end.
+          inversion Hx; subst x; clear Hx; cbn [slot_ok]. split; [intros i x E; discriminate | intros i y E].
+          assert (Hin : In (i, tpfx pfx R pzero r, y) (entries_id tb)) by (apply Hsub; apply idval_in; exact E).
+          split; [intros _; exact Hin|]. exists (tpfx pfx R pzero r). split; [exact Hin | reflexivity].
+    - apply Forall_rev. pose proof (ni_classify _ _ ta tb Ha Hb) as C.
+      apply Forall_and; [eapply class_ok; exact C|].
+      apply ni_PI; intros e He; exact He. }
+  rewrite Forall_forall in HQ. intros p l r Hin. exact (HQ _ Hin).
+Qed.
+
 End UN.
+
+Print Assumptions union_correct.
+Print Assumptions union_mut_mirrors.
+Print Assumptions union_mut_slots.
